@@ -1,16 +1,15 @@
-"""Table of checks: property id -> level, harnesses, static texts."""
+"""Table of checks: property id -> level, harnesses, static texts.
+One file per property under lib/checks.d/<ID>.py defining CHECK (dict) and TEXT (dict)."""
+import glob, os, runpy
 
 def H(pkg, sub="", libs=(), **kw):
     d = {"pkg": pkg, "sub": sub, "libs": ["vlib", "vexec", "venv"] + list(libs)}
     d.update(kw)
     return d
 
-CHECKS = {}
-
-CHECKS["C14"] = {
-    "level": "exploration",
-    "technique": "bounded-exhaustive enumeration of dependency graphs against the real NewExecutionGraph / agent.Run, reference DFS oracle",
-    "rule": "all digraphs with self-loops on <=4 steps (all listing orders for <=3), all 2^20 loop-free edge sets on 5 steps, dangling name at every position, structured families (chain/ring+tail/two rings/layered + every back edge) up to 40 steps",
-    "harnesses": [H("c14", shards={"quick": "ncpu", "thorough": "ncpu"})],
-    "assumptions": ["the scripted executor (executor.Register(\"verif\")) stands for child processes in the agent.Run part"],
-}
+CHECKS, TEXT = {}, {}
+for _f in sorted(glob.glob(os.path.join(os.path.dirname(os.path.abspath(__file__)), "checks.d", "C*.py"))):
+    _ns = runpy.run_path(_f, {"H": H})
+    _id = os.path.basename(_f)[:-3]
+    CHECKS[_id] = _ns["CHECK"]
+    TEXT[_id] = _ns["TEXT"]
